@@ -10,6 +10,18 @@ NOTES = ("Runtime monitoring family. ./check <id> quick|thorough rebuilds the ha
          "or too few observations), never a verdict.")
 NOT_APPLICABLE = {}
 CHECKS = {
+    "C16": {
+        "level": "fault_enumeration",
+        "technique": "fault enumeration with a cfg(zerokit_verif) fail-after-N storage hook (every put/put_batch/flush of each short history fails once) + reopen monitor against the ideal model + SIGKILL crash points of a writer process + reopen while another process holds the storage lock",
+        "text": "For short generated histories through RLN on persistent trees the harness counts the storage operations of an unarmed run and replays the history once per storage operation with the fault armed there (exhaustive for these histories): the API call hit must return Err, earlier calls keep their results, and after disarm+flush+drop+reopen every leaf, the leaf count and the metadata acknowledged before the failed call must be readable. Longer histories are flushed, dropped and reopened at four points under 6 storage configurations and 4 path styles and must equal the model, which the reopened tree keeps following. A writer process is SIGKILLed 0..120 ms after an acknowledged flush and the recovered state must contain everything acknowledged. Reopen is attempted while another process holds the lock for 10..500 ms. Known finding: reset on a persistent instance.",
+        "note": "Trusted: the hook returns the adapter's own error value at the entry of put/put_batch/close (same path as a failing sled call); the effect of the failed/in-flight operation is excluded; SIGKILL is a process crash, not a power failure.",
+    },
+    "C17": {
+        "level": "exploration",
+        "technique": "cross-build differential: harness built in the five feature configurations; exhaustive element-wise key comparison (zkey vs arkzkey); transcripts of a seeded history compared with the model and byte-for-byte between builds; 5x5 message acceptance matrix",
+        "text": "The driver builds the harness against /repo in the configurations pm (default), fullmerkletree, no-default (optimal), arkzkey and stateless (a configuration that does not compile is a violation); in the arkzkey build every component of (ProvingKey, ConstraintMatrices) from the two key files is compared element by element (exhaustive: about 55k elements); every stateful build writes the transcript of a seeded history (root after each operation, get_proof bytes at sampled positions) which must equal the model's and the other builds'; every build emits messages and every build verifies all of them (verify_with_roots with the producer's root, verify, verify_rln_proof on the replayed history).",
+        "note": "Trusted: ideal model + reference Poseidon for the transcripts. Histories are sampled; the key comparison is exhaustive.",
+    },
     "C01": {
         "level": "exploration",
         "technique": "completeness monitor: requests whose validity is established independently (reference Poseidon, shadow Merkle model, rln.wasm) driven through the four proving entry points; every output checked by all verification calls and decoded by the independent codec",
